@@ -68,6 +68,7 @@ func main() {
 			fmt.Fprintln(os.Stderr, "harness: doc must be an object")
 			os.Exit(2)
 		}
+		typedTables = theCase.TypedTables
 		built, sh := buildDocKeys(m, theCase.NativeInts, theCase.NativeIntKeys)
 		docs = append(docs, built)
 		shadows = append(shadows, sh)
